@@ -273,6 +273,19 @@ CHECKS.update({
     ),
 })
 
+CHECKS.update({
+    "C29": (
+        "generated pools of operands (copies, one-edit variants, shared sub-objects, arguments differing in part); oracle = preorder axioms of cmp_expr on all pairs/triples, permutation invariance of sorted_expr, structural equality of swapped sums/products/inner products",
+        "Hypothesis-generated pools of 3-5 operands of one type from the grammar, with rebuilt copies, single-edit variants, "
+        "members sharing sub-expression objects, arguments that differ only in their part and coefficients that differ only "
+        "in their count: cmp_expr must be reflexive, antisymmetric and transitive on all pairs/triples and agree with ==; "
+        "sorted_expr must be permutation invariant up to ties; whenever cmp(a,b) != 0, a+b == b+a, a*b == b*a and "
+        "inner(b,a) == conj(inner(a,b)) structurally.",
+        "Pairs that tie without being equal (index/label numbers) are outside the statement and only counted.",
+        "4/C29",
+    ),
+})
+
 NOT_YET = {}
 
 
